@@ -4,11 +4,14 @@ Static half: harness/extract/masked_sites.py extracts from the CURRENT source ev
 masked element-wise call (ufunc with where=) and every uninitialised allocation; the table
 becomes the constant `Sites` of specs/purity/Purity.tla and TLC decides, by self-composition
 over all masks and all heap histories, at which sites a result can read junk.
-Dynamic half (spec -> code): TLC enumerates call histories (poison pattern, up to two prior
-calls from a 'dirtying' alphabet, thread count) x routine x argument set; each is replayed in
-a worker process whose numpy allocator fills fresh blocks with the pattern; the result must be
-bit-identical to the same call in a clean single-threaded process, and the arguments must be
-bit-identical before and after.
+Dynamic half (spec -> code): TLC enumerates the call histories (poison pattern, up to two prior
+calls from a 'dirtying' alphabet, thread count) and the calls (routine x argument set) of
+specs/purity/PurityHist.tla; a section of their product (every call with the mandatory
+histories, plus a seed-rotated stride through the rest) is replayed in worker processes whose
+numpy allocator fills fresh blocks with the pattern; the result must be bit-identical to the
+same call in a clean single-threaded process, and every argument (nested lists, ndarrays,
+sparse data/indices/indptr, RaggedArrays, trajectories) must be bit-identical before and after
+the call, except documented out= buffers.
 """
 import json
 import os
@@ -40,7 +43,12 @@ def run(ctx):
     ctx.assumptions += ["the heap is observed through numpy's data allocator (PyDataMem_SetHandler); memory obtained by C "
                         "extensions through malloc directly is not poisoned",
                         "OpenMP thread counts 1/2/4/16 via OMP_NUM_THREADS; the actual interleavings are the runtime's",
-                        "routine alphabet = the numerical API listed in harness/purity_routines.py, 3 argument sets each"]
+                        "routine alphabet = the numerical API listed in harness/purity_routines.py (options, containers, dtypes, "
+                        "memory layouts as named variants), 3 argument sets each; the quick tier replays one argument set per "
+                        "routine (rotated by VERIF_SEED), the thorough tier all of them",
+                        "routines randomised without a seed argument (synthetic_trajectory, msm.bootstrap, KMedoids from n_clusters "
+                        "alone) and routines that need trajectory files are outside the alphabet; see the SKIPPED / EXCLUDED "
+                        "comments of harness/purity_routines.py"]
     b = core.build_repo()
     # ---- static half
     sites = masked_sites.extract(b)
@@ -77,51 +85,83 @@ def run(ctx):
     sys.path.insert(0, os.path.join(core.VERIF, "harness", "fakempi"))
     from harness import purity_routines as PR
     names = PR.ROUTINES.names()
-    nargs = PR.NSETS if ctx.tier == "thorough" else 2
-    core.write_cfg(os.path.join(d, "hist.cfg"), init="HInit", next_="HNext", invariants=["EmitHist"],
-                   constants=dict(NRoutines=str(len(names)), NDirty=str(len(PR.DIRTY)), NArgsets=str(nargs)))
-    r = ctx.tlc("PurityHist", "hist.cfg", d, label="history enumeration", workers=1, timeout=3000)
-    hists = [p for t, p in r.prints if t == "CASE"]
-    if not hists:
-        raise core.MachineryError("no histories emitted")
+    quick = ctx.tier != "thorough"
+    nargs = PR.NSETS
+    nprior = 2 if quick else PR.NSETS
+    consts = dict(NRoutines=str(len(names)), NDirty=str(len(PR.DIRTY)), NArgsets=str(nargs), NPriorArgsets=str(nprior))
+    core.write_cfg(os.path.join(d, "hist.cfg"), init="HInit", next_="HNext", invariants=["EmitHist"], constants=consts)
+    core.write_cfg(os.path.join(d, "calls.cfg"), init="CInit", next_="HNext", invariants=["EmitCall"], constants=consts)
+    rh, rc = ctx.tlc_parallel([dict(module="PurityHist", cfg="hist.cfg", cwd=d, label="history enumeration", workers=1, timeout=3000),
+                               dict(module="PurityHist", cfg="calls.cfg", cwd=d, label="call enumeration", workers=1, timeout=3000)])
+    hists = [p for t, p in rh.prints if t == "CASE"]
+    calls = [p for t, p in rc.prints if t == "CALL"]
+    if not hists or len(calls) != len(names) * nargs:
+        raise core.MachineryError("history / call enumeration incomplete (%d histories, %d calls)" % (len(hists), len(calls)))
+    hists.sort(key=lambda hh: (len(hh["prior"]), str(hh["prior"]), hh["byte"], hh["threads"]))
     ctx.notes["histories_enumerated"] = len(hists)
-    target = 2500 if ctx.tier == "quick" else 40000
-    if len(hists) > target:
-        # deterministic, seed-rotated subsample that keeps, for every routine x argset, the NaN-pattern history
-        # without prior calls at 1 and 16 threads
-        stride = -(-len(hists) // target)
-        keep = []
-        for i, hh in enumerate(hists):
-            if (i + ctx.seed) % stride == 0 or (len(hh["prior"]) == 0 and hh["byte"] == 255 and hh["threads"] in (1, 16)):
-                keep.append(hh)
-        hists = keep
-        ctx.exhaustive = False
-    # baseline: clean process, one thread
-    base_jobs = [{"id": i, "byte": -1, "prior": [], "routine": n, "argset": k}
-                 for i, (n, k) in enumerate((n, k) for n in names for k in range(nargs))]
-    base = {(j["routine"], j["argset"]): r_ for j, r_ in zip(base_jobs, run_worker(b, False, base_jobs, 1))}
-    for (n, k), r_ in base.items():
-        if "worker_error" in r_:
-            raise core.MachineryError("baseline worker error for %s: %s" % (n, r_["worker_error"]))
-    # poisoned replays, one worker process per thread count (run in parallel)
-    from concurrent.futures import ThreadPoolExecutor
+    ctx.notes["calls_enumerated"] = len(calls)
+    ctx.notes["routines"] = len(names)
+    # section of Calls x Histories that is replayed.  quick: every routine with ONE argument set, rotated by the seed
+    # (the thorough tier replays every argument set); per call the mandatory histories (NaN pattern, no prior call,
+    # 1 and 16 threads) plus `extra` histories taken at a seed-rotated stride through the enumeration.
+    extra = 3 if quick else 24
+    mand = [hh for hh in hists if not hh["prior"] and hh["byte"] == 255 and hh["threads"] in (1, 16)]
+    rest = [hh for hh in hists if hh not in mand]
+    pairs = []
+    for c in sorted(calls, key=lambda c: (c["routine"], c["argset"])):
+        n, k = names[c["routine"] - 1], c["argset"] - 1
+        if quick and k != (PR.hash_name(n) + ctx.seed) % nargs:
+            continue
+        pairs.append((n, k))
+    ctx.exhaustive = False
+    jobs_all = []
+    for pi, (n, k) in enumerate(pairs):
+        sel = list(mand)
+        h0 = (PR.hash_name(n) * 31 + k * 7 + ctx.seed * 13) % len(rest)
+        step = max(1, len(rest) // extra) + 1
+        sel += [rest[(h0 + j * step) % len(rest)] for j in range(extra)]
+        for hh in sel:
+            jobs_all.append((hh["threads"], {"id": len(jobs_all), "byte": hh["byte"],
+                                             "prior": [[PR.DIRTY[p[0] - 1], p[1] - 1] for p in hh["prior"]],
+                                             "routine": n, "argset": k}))
+    # baseline: clean process, one thread -- runs concurrently with the poisoned replays
+    base_jobs = [{"id": i, "byte": -1, "prior": [], "routine": n, "argset": k} for i, (n, k) in enumerate(pairs)]
     bythreads = {}
-    for i, hh in enumerate(hists):
-        job = {"id": i, "byte": hh["byte"] if hh["byte"] else -1 if not hh["prior"] else 0,
-               "prior": [[PR.DIRTY[p[0] - 1], p[1] - 1] for p in hh["prior"]],
-               "routine": names[hh["routine"] - 1], "argset": hh["argset"] - 1}
-        job["byte"] = hh["byte"]
-        bythreads.setdefault(hh["threads"], []).append(job)
-    work = []
-    for th, jobs in bythreads.items():
-        for i in range(0, len(jobs), 800):
-            work.append((th, jobs[i:i + 800]))
+    for th, job in jobs_all:
+        bythreads.setdefault(th, []).append(job)
+    chunk = 450 if quick else 1500
+    work = [("base", 1, base_jobs)]
+    for th, jobs in sorted(bythreads.items()):
+        for i in range(0, len(jobs), chunk):
+            work.append(("poison", th, jobs[i:i + chunk]))
+    from concurrent.futures import ThreadPoolExecutor
     with ThreadPoolExecutor(8) as ex:
-        outs = list(ex.map(lambda w: run_worker(b, True, w[1], w[0]), work))
-    for (th, jobs), res in zip(work, outs):
+        outs = list(ex.map(lambda w: run_worker(b, w[0] == "poison", w[2], w[1]), work))
+    base = {}
+    raised = []
+    for j, r_ in zip(base_jobs, outs[0]):
+        n, k = j["routine"], j["argset"]
+        if "worker_error" in r_:
+            raise core.MachineryError("baseline worker error for %s/%d: %s" % (n, k, r_["worker_error"]))
+        base[(n, k)] = r_
+        ctx.case(("clean", n, k))
+        ctx.traces += 1
+        if r_.get("raised"):
+            raised.append("%s[%d]: %s" % (n, k, r_.get("value")))
+        if not r_.get("args_same", True):
+            ctx.violation({"kind": "replay", "history": j, "threads": 1, "arguments_changed": r_.get("args_changed"),
+                           "how": "an argument was modified by the call (clean single-threaded process); positions "
+                                  "listed in arguments_changed differ bitwise after the call"},
+                          key="purity/argument-modified/%s" % n)
+    # every call of the alphabet returns a value on the unchanged tree; a call that raises cannot be judged
+    ctx.notes["baseline_calls_that_raised"] = raised
+    if raised:
+        print("C19 note: %d call(s) of the alphabet raised in the clean process (result compared as the exception type): %s"
+              % (len(raised), "; ".join(raised[:5])))
+    for (kind, th, jobs), res in zip(work[1:], outs[1:]):
         for job, r_ in zip(jobs, res):
             if "worker_error" in r_:
-                raise core.MachineryError("worker error: %s" % r_["worker_error"])
+                raise core.MachineryError("worker error in %s/%d: %s" % (job["routine"], job["argset"], r_["worker_error"]))
             ref = base[(job["routine"], job["argset"])]
             nontriv = job["byte"] != 0 or job["prior"]
             ctx.case((job["routine"], job["argset"], job["byte"], str(job["prior"]), th) if nontriv else None,
@@ -133,5 +173,6 @@ def run(ctx):
                                "how": "same arguments, different bits than in a clean single-threaded process"},
                               key="purity/result-depends-on-history/%s" % job["routine"])
             if not r_.get("args_same", True):
-                ctx.violation({"kind": "replay", "history": job, "threads": th, "how": "an argument was modified"},
+                ctx.violation({"kind": "replay", "history": job, "threads": th, "arguments_changed": r_.get("args_changed"),
+                               "how": "an argument was modified"},
                               key="purity/argument-modified/%s" % job["routine"])
